@@ -52,8 +52,10 @@ INFO = dict(
                "requested labels in their original order, exactly the edges among them renumbered, each requested label "
                "with its mask restricted, labels in request order (with_labels; permuted / duplicated requests return the "
                "same points, edges and masks) / original order (without_labels, remove_label, add_label); every way a "
-               "selection raises is characterised with the exception kind the code produces (unknown label, empty "
-               "request = without_labels of every label, no point selected); unknown names in an exclusion list are "
+               "selection raises is characterised for the model (unknown label, empty "
+               "request = without_labels of every label, no point selected; the exception KINDS the model carries are "
+               "those of the current code and are not demanded of the implementation: the property text only says "
+               "refused); unknown names in an exclusion list are "
                "ignored; the constructors (plain, from an index mapping, with the all label) succeed iff every mask has "
                "the length of the points and every point is covered — a group with an unlabelled point cannot be built; "
                "every succeeding operation sequence keeps every point labelled; every operation sequence "
@@ -63,8 +65,10 @@ INFO = dict(
                "labeller whose regenerated table satisfies `labellerWF` (33 kernel-decided obligations, re-checked "
                "against the live functions on every run) returns distinct input points, labels every output point, "
                "commutes with every map of the points, rejects every other input size, and its result reproduces the "
-               "table on every input (label masks, points under each label, connectivity through the index list); the "
-               "wrapper treats arrays, point clouds, labelled graphs and manager groups alike; `labeller()` leaves the "
+               "table on every input (label masks, points under each label, connectivity through the index list); that "
+               "the wrapper treats arrays, point clouds, labelled graphs and manager groups alike is `wrapper_eq` (the "
+               "translated wrapper hands the labelling method the points only) together with the regenerated "
+               "`resolution_ok` rows (in the Core model `LabFunc.call` it holds by definition); `labeller()` leaves the "
                "source group and every other group untouched, writes exactly the key `group_label`, raises exactly for a "
                "missing group / an ambiguous None / a wrong size, over every history of calls.  TRANSLATED rather than "
                "transcribed (re-translated from the source text on every run, equality with the Core definition proved for "
@@ -75,7 +79,16 @@ INFO = dict(
                "`src_without_labels_exact`, `src_without_labels_str` are theorems about what the source says now — and the "
                "body of each of the 33 labelling functions: `src_<name>` says that on EVERY input the translated source "
                "returns the class, points, connectivity, label masks and mapping of the table probed from the live function "
-               "(two independent extractions, source text and execution, agree), and refuses every other size.  Tied to "
+               "(two independent extractions, source text and execution, agree), and refuses every other size.  LIMITS of "
+               "the source tie: (i) the translation is VALUE-LEVEL — `.copy()`, `copy=` flags, in-place versus rebinding and "
+               "object identity are invisible to it (a dropped copy translates to the same text), so the clauses 'leaves "
+               "its input untouched' / receiver untouched are decided by the oracle's digests of the state the property "
+               "names (points, connectivity, ordered label masks) before and after every call, not by the translated "
+               "obligations; (ii) the EDGE clause ('with the edges among them') of the `src_*` theorems is relative to the "
+               "MODELLED helpers of menpo/shape/graph.py — `_mask_adjacency_matrix_and_points` (`maskAdjPts`), "
+               "`_convert_edges_to_symmetric_adjacency_matrix` (`convertEdges`), `PointUndirectedGraph.__init__` (`puInit`) "
+               "are one vocabulary word each, not translated: a wrong row/column selection inside them is caught by the "
+               "oracle and the correspondence (edges of every result are compared), not by an obligation.  Tied to "
                "/repo by the "
                "regenerated tables and scans and by running random operation sequences, every labeller (arrays of several "
                "dtypes and layouts / point clouds and subclasses / labelled graphs, right and wrong sizes) and random "
@@ -87,8 +100,15 @@ INFO = dict(
                "translator and the C15 vocabulary: which Lean operation of Core/C15Src.lean each numpy / OrderedDict / "
                "constructor expression stands for; a point cloud argument of a labelling function is the list of its points "
                "— any other use of it has no translation and breaks the obligation), the Python harness and oracle, the "
-               "driver's parser.  The graph constructor (menpo/shape/graph.py, outside the anchored files) is modelled "
-               "(`puInit`), not translated.  "
+               "driver's parser.  Modelled, not translated (one trusted vocabulary word each): the graph.py helpers "
+               "`_mask_adjacency_matrix_and_points`, `_convert_edges_to_symmetric_adjacency_matrix`, "
+               "`PointUndirectedGraph.__init__` / `Graph.__init__`; `TriMesh(points, trilist=…)` (`triMesh`), "
+               "`from_vector` (`objFromVector`), `LandmarkManager.__getitem__` / `__setitem__` / `n_dims` "
+               "(Core/C15Entry.lean).  The STATEMENTS of GenProps/C15.lean and GenProps/C15SrcLab*.lean are emitted by "
+               "Python (extract_c15.lean_files, trans_c15._lab_props) — the same few lines per labeller.  `gather`, "
+               "`orMasks`, `inducedEdges`, `restrictLabels` are totalised (`filterMap` / `getD`): the labeller theorems are "
+               "quoted with `labellerWF` (33 obligations), the selection theorems with `WF`; the translated source keeps "
+               "numpy's IndexError (`takePts`).  "
                "Modelled, not verified: numpy boolean / integer indexing, scipy sparse row/column selection "
                "(`adjacency[keep,:][:,keep]`), OrderedDict item assignment and pop, `Copyable.copy` of a group stored by "
                "`LandmarkManager.__setitem__` (each exercised by the correspondence; aliasing by identity / digest / "
@@ -111,10 +131,15 @@ INFO = dict(
              "theorems `relabel_source_untouched` / `relabelMany_invariant` say which keys of the manager keep their "
              "value); on the real objects it is checked by digests and object identity of the receiver / of every group "
              "before and after every call, and by `shares_memory` between the stored group and its source",
-             "run-to-run identity is a theorem for the model (the operations are functions, and `run_rename`: their "
-             "results do not depend on hashes or on how names compare); for the real interpreter it is observed over 3 "
-             "(quick) / 8 (thorough) hash seeds and backed by the regenerated obligation `orderSites_ok` (ast scan: the "
-             "only set whose iteration order the anchored code observes is inside a `raise`)",
+             "run-to-run identity is a theorem for the model only (the operations are functions; `run_rename` — "
+             "independence of hashes / of how names compare — is a free theorem of any Lean function built from `==`: it "
+             "cannot express a dependence on CPython's hash seed, which is why the pre-repair code needed the explicit "
+             "`order` parameter); for the real interpreter the clause rests on the oracle's order check in process and on "
+             "3 (quick) / 8 (thorough) interpreter processes with different hash seeds; `orderSites_ok` is a syntactic "
+             "support only (ast scan: set displays / comprehensions, set()/frozenset(), set methods, the RESULT of "
+             "`- | & ^` on a set or on a `.keys()` / `.items()` view, `sorted(key=hash|id)`; the only set whose iteration "
+             "order reaches a value is inside a `raise`) — spellings the scan does not know have no translation rule "
+             "either and break an obligation",
              "the two bounding-box labellers are outside the re-indexing clause by the property text: only label "
              "coverage and input purity are checked for them",
              "connectivity of a labeller's output is not a clause of the property text: it is tabulated, proved in range "
@@ -124,10 +149,19 @@ INFO = dict(
              "violation: the call itself leaves the input untouched"],
     assumptions=["label names are distinct strings; point coordinates of a generated graph are pairwise distinct "
                  "(used only to identify output points with input points)",
-                 "reading of 'in their original order' for with_labels: a request that lists labels out of their "
-                 "original order (or repeats one) gets them back in the order of the request, first occurrences "
-                 "(`OrderedDict(zip(labels, …))`); points, edges and masks are the same as for the in-order request "
-                 "(`select_same_set`, `select_dedup`)",
+                 "'in their original order' for with_labels: for a request that lists labels out of their order in the "
+                 "group (or repeats one) the code returns them in the order of the request, first occurrences "
+                 "(`OrderedDict(zip(labels, …))`) and so does the model (`withLabels_order` proves the group's order only "
+                 "for in-order requests); the oracle and the correspondence accept BOTH the request order and the group's "
+                 "own order (points, edges and the mask of every label are the same either way: `select_same_set`, "
+                 "`select_dedup`); for without_labels / add_label / remove_label the group's order is demanded",
+                 "not stated by the text and therefore not demanded of the implementation (counted when met): that "
+                 "add_label wraps negative indices, that without_labels ignores unknown names, which exception KIND a "
+                 "refusal uses, the class of get_label's result, that labeller() returns the landmarkable, that a stored "
+                 "group does not share its buffer with its source",
+                 "'every output point is labelled' for the labellers that return a TriMesh: the mesh itself carries no "
+                 "labels; the clause is read through the mapping returned with return_mapping=True (label 'tri' -> every "
+                 "output point), in the oracle (extract_c15.labels_of) and in `LabellerClause`",
                  "masks that are not boolean ndarrays (int / uint8 arrays, lists) are outside the documented contract of "
                  "the constructor: for them an operation must return the right result or raise, never a wrong result"],
     design_ref="DESIGN.md section 6, C15; section 7 #13, #14; Appendix 13 item 4")
@@ -167,7 +201,7 @@ THEOREMS = [
     "MenpoModel.C15.labeller_select_reindexes", "MenpoModel.C15.maskFilter_indexMask_sorted",
     "MenpoModel.C15.labeller_get_label_gather",
     # labeller_func's wrapper and labeller() on a landmark manager
-    "MenpoModel.C15.call_kind_independent", "MenpoModel.C15.call_spec", "MenpoModel.C15.relabel_spec",
+    "MenpoModel.C15.call_spec", "MenpoModel.C15.relabel_spec",
     "MenpoModel.C15.relabel_source_untouched", "MenpoModel.C15.relabel_same_key", "MenpoModel.C15.relabel_error_iff",
     "MenpoModel.C15.relabel_wf", "MenpoModel.C15.relabelMany_invariant",
     # the code-shaped definitions (vocabulary of the source-text translation) are the Core definitions (Props/C15Src.lean)
@@ -394,6 +428,18 @@ def judge(ctx, state, op, status, result, digest_before, digest_after):
             # call is acceptable, a silently wrong result is not (every returned result is still judged below)
             ctx.count("non-bool-mask-refused:" + method)
             return ok, None
+        n_pts = len(state["points"])
+        if op[0] == "add" and any(i < 0 for i in op[2]):
+            # the text does not say that negative indices count from the end (numpy's convention): refusing them is not a
+            # failure of the property; a returned result is still judged
+            ctx.count("negative-index-refused:" + method)
+            return ok, None
+        if op[0] in ("without", "without_str") and any(
+                l not in [x for x, _ in state["labels"]] for l in ([op[1]] if op[0] == "without_str" else op[1])):
+            # the text does not say what an unknown name in an exclusion list meets: refusing the call is acceptable
+            ctx.count("unknown-exclusion-refused:" + method)
+            return ok, None
+        _ = n_pts
         ctx.fail(site, "raises", "%s raised %s where the property demands a result" % (method, result),
                  dict(rp, expected=exp))
         return False, None
@@ -411,11 +457,21 @@ def judge(ctx, state, op, status, result, digest_before, digest_after):
             return False, None
         got_names = [l for l, _ in obs["labels"]]
         exp_names = [l for l, _ in exp["labels"]]
+        if op[0] in ("with", "with_str") and got_names != exp_names:
+            # "in their original order": for a request that lists labels out of their order in the group the text can be
+            # read as the group's own order or as the order of the request (what the code does); both are accepted
+            group_order = [l for l, _ in state["labels"] if l in exp_names]
+            if got_names == group_order:
+                ctx.count("with_labels-order:group-order")
+                exp_names = group_order
         if got_names != exp_names:
             if sorted(got_names) == sorted(exp_names):
+                group_order = [l for l, _ in state["labels"] if l in exp_names]
                 ctx.fail(site + ".order", "label-order-not-original",
-                         "%s returned the labels in the order %r, their order in the group is %r"
-                         % (method, got_names, exp_names), dict(rp, expected=exp_names, observed=got_names))
+                         "%s returned the labels in the order %r; their order in the group is %r%s"
+                         % (method, got_names, group_order,
+                            (", the order of the request %r" % exp_names) if op[0] in ("with", "with_str") else ""),
+                         dict(rp, expected=exp_names, observed=got_names))
             else:
                 ctx.fail(site + ".labels", "wrong-label-set", "%s returned labels %r, expected %r"
                          % (method, got_names, exp_names), dict(rp, expected=exp_names, observed=got_names))
@@ -425,8 +481,7 @@ def judge(ctx, state, op, status, result, digest_before, digest_after):
                      % (method, obs["labels"], exp["labels"]), dict(rp, expected=exp, observed=obs))
             return False, None
     elif op[0] == "get" and obs["cls"] != "PointUndirectedGraph":
-        ctx.fail(site, "wrong-class", "get_label returned a %s" % obs["cls"], rp)
-        return False, None
+        ctx.count("side:get_label-returns-" + obs["cls"])     # the class of the result is not named by the property text
     return ok, ("ok", obs)
 
 
@@ -511,8 +566,9 @@ def compare_op(ctx, rec, reply):
             pass   # which exception an emptied label dict meets (numpy's, from `nonzero` on a 0-d array) is not modelled
         elif {"empty": "value"}.get(m[1], m[1]) != impl[1]:
             # the model's `empty` is the graph constructor's ValueError for zero vertices; `index` the IndexError an
-            # empty request (without_labels of every label) meets in from_mask
-            ctx.mismatch(op[0], "implementation raises %s, the model %s" % (impl[1], m[1]), rp)
+            # empty request (without_labels of every label) meets in from_mask.  The property text says nothing about
+            # exception kinds: a different kind is counted, not a broken correspondence
+            ctx.count("exception-kind-differs:%s:impl=%s:model=%s" % (op[0], impl[1], m[1]))
         return
     if m[0] == "err":
         ctx.mismatch(op[0], "model raises %s, the implementation returns a result" % m[1], rp)
@@ -525,7 +581,12 @@ def compare_op(ctx, rec, reply):
     elif obs["edges"] != m[1]["edges"]:
         ctx.mismatch(op[0], "edges: implementation %r, model %r" % (obs["edges"], m[1]["edges"]), rp)
     elif "labels" in obs and obs["labels"] != m[1].get("labels"):
-        ctx.mismatch(op[0], "labels: implementation %r, model %r" % (obs["labels"], m[1].get("labels")), rp)
+        ml = m[1].get("labels") or []
+        if op[0] in ("with", "with_str") and dict((l, list(b)) for l, b in obs["labels"]) == dict((l, list(b)) for l, b in ml) \
+                and [l for l, _ in obs["labels"]] == [l for l, _ in state["labels"] if l in dict(ml)]:
+            ctx.count("with_labels-order:group-order(model: request order)")   # see `select_same_set`
+        else:
+            ctx.mismatch(op[0], "labels: implementation %r, model %r" % (obs["labels"], ml), rp)
 
 
 # ------------------------------------------------------------------------------------- generators
@@ -813,7 +874,9 @@ def compare_ctor(ctx, rec, reply):
     m = parse_model(reply, rec["table"])
     impl, rp = rec["impl"], dict(rec["ctor"], model=reply[:300])
     if impl[0] == "err" or m[0] == "err":
-        if impl[0] != m[0] or (impl[0] == "err" and impl[1] != m[1]):
+        if impl[0] == m[0] == "err" and impl[1] != m[1]:
+            ctx.count("exception-kind-differs:constructor:impl=%s:model=%s" % (impl[1], m[1]))   # kinds: not in the text
+        elif impl[0] != m[0]:
             ctx.mismatch("constructor", "implementation %s %s, model %s" % (impl[0], impl[1] if impl[0] == "err" else "",
                                                                            reply[:60]), rp)
         return
@@ -1078,7 +1141,9 @@ def compare_labeller(ctx, rec, reply):
     rp = {"kind": "lab", "labeller": rec["lab"], "n": rec["n"], "input_kind": rec["input_kind"], "model": reply[:200]}
     impl = rec["impl"]
     if impl[0] == "err" or m[0] == "err":
-        if (impl[0], impl[1]) != (m[0], m[1]):
+        if impl[0] == m[0] == "err" and impl[1] != m[1]:
+            ctx.count("exception-kind-differs:lab:impl=%s:model=%s" % (impl[1], m[1]))          # kinds: not in the text
+        elif impl[0] != m[0]:
             ctx.mismatch("lab", "%s on %d points: implementation %s %s, regenerated table %s %s"
                          % (rec["lab"], rec["n"], impl[0], impl[1] if impl[0] == "err" else "", m[0],
                             m[1] if m[0] == "err" else ""), rp)
@@ -1190,7 +1255,13 @@ def relabel_case(ctx, rng, fs, nexp, lines, recs, with_model=True, only=None):
                                                           else "the group cannot be resolved"), dict(rp, step=step))
             return
         gl = f.group_label
-        okc = ctx.check(ret is holder, site, "returns-other-object", "labeller() did not return the landmarkable", rp)
+        okc = True
+        if ret is not holder:
+            # a return convention of `labeller()`, not a clause of the property text: noted, not a failure
+            ctx.count("side:labeller()-returns-other-object")
+            ctx.notes.setdefault("side_findings_conventions", [])
+            if len(ctx.notes["side_findings_conventions"]) < 5:
+                ctx.notes["side_findings_conventions"].append("labeller() did not return the landmarkable (%s)" % name)
         a = dict((k, (i, dg)) for k, i, dg in after)
         for k, i, dg in snap:
             if k == gl:
@@ -1205,17 +1276,23 @@ def relabel_case(ctx, rng, fs, nexp, lines, recs, with_model=True, only=None):
         if not okc:
             return
         new = holder.landmarks[gl]
-        if not ctx.check(digest(new) == digest(direct) and type(new) is type(direct), site + ".new-group",
+        if type(new) is not type(direct):
+            ctx.count("side:stored-group-class-differs-from-direct-call")      # class identity: not named by the text
+        if not ctx.check(digest(new) == digest(direct), site + ".new-group",
                          "stored-group-differs-from-direct-call",
                          "the group labeller() stored under %r differs from %s(source group)" % (gl, name),
                          dict(rp, step=step)):
             return
         if source is not None and src_key != gl:
             shared = np.shares_memory(np.asarray(new.points), np.asarray(source.points))
-            if not ctx.check(not shared, site + ".alias", "new-group-shares-source-buffer",
-                             "the group stored under %r shares its points buffer with the source group" % gl,
-                             dict(rp, step=step)):
-                return
+            if shared:
+                # `LandmarkManager.__setitem__` (outside the anchored files) copies today; the text only demands that the
+                # input is left untouched, which the digests above decide: sharing is a side finding, as for direct calls
+                ctx.count("side:new-group-shares-source-buffer")
+                ctx.notes.setdefault("side_findings_conventions", [])
+                if len(ctx.notes["side_findings_conventions"]) < 5:
+                    ctx.notes["side_findings_conventions"].append(
+                        "the group stored under %r shares its points buffer with the source group (%s)" % (gl, name))
     ctx.case(("relabel", json.dumps(rp["groups"]), d, arg, tuple(chain), allpts.tobytes().hex()[:64]), nontrivial=True,
              sample={"groups": rp["groups"], "group": arg, "labellers": chain,
                      "outcome": "err %s at %d" % impl_err if impl_err else holder.landmarks.group_labels}
@@ -1270,7 +1347,9 @@ def compare_relabel(ctx, rec, reply):
     impl = rec["impl"]
     rp = dict(rec["relabel"], model=reply[:300])
     if impl[0] == "err" or m[0] == "err":
-        if (impl[0], impl[1] if impl[0] == "err" else None) != (m[0], m[1] if m[0] == "err" else None):
+        if impl[0] == m[0] == "err" and impl[1] != m[1]:
+            ctx.count("exception-kind-differs:relabel:impl=%s:model=%s" % (impl[1], m[1]))      # kinds: not in the text
+        elif impl[0] != m[0]:
             ctx.mismatch("relabel", "labeller() history: implementation %s, model %s"
                          % (impl[0] + (" " + impl[1] if impl[0] == "err" else ""), reply[:60]), rp)
         return
@@ -1543,7 +1622,18 @@ def run(ctx):
     ctx.trusted.extend(["harness/extract_c15.py (probing of the live labellers: sizes 1..200, index-encoding cloud)",
                         "numpy boolean/integer indexing, scipy sparse row/column selection, OrderedDict assignment "
                         "and pop (modelled, exercised by the correspondence)",
-                        "CPython set iteration order: parameter of the coded without_labels model (any permutation)"])
+                        "CPython set iteration order: parameter of the coded without_labels model (any permutation)",
+                        "harness/py2lean2.py + harness/trans_c15.py (source-to-Lean translator, rule table, helper "
+                        "inlining, alias elimination) and the vocabulary lean/MenpoModel/Core/C15Src.lean",
+                        "harness/scan_c15.py (ast classification of set uses and of what a labelling function does with "
+                        "its argument)",
+                        "modelled, not translated: graph.py `_mask_adjacency_matrix_and_points`, "
+                        "`_convert_edges_to_symmetric_adjacency_matrix`, `PointUndirectedGraph.__init__`/`Graph.__init__`; "
+                        "`TriMesh(points, trilist)`, `from_vector`; `LandmarkManager.__getitem__/__setitem__/n_dims`",
+                        "the statements of GenProps/C15.lean and GenProps/C15SrcLab*.lean are emitted by Python "
+                        "(extract_c15.lean_files, trans_c15._lab_props)",
+                        "value-level translation: copies, copy= flags and object identity are not seen by the translated "
+                        "obligations; non-mutation is decided by the oracle's digests"])
     rng = ctx.rng
     lines, recs = [], {}
     for k in range(ctx.n(1200, 20000)):
